@@ -11,6 +11,7 @@ type State struct {
 	heap  map[string]Term // heap key → array term (absent: initial array H0_key)
 	ghost map[string]Val
 	ctr   Term // allocation frontier: every ref reachable in the heap is < ctr
+	sctr  Term // frontier of slice backing-store ids handed out by make / growing append
 	held  Term // lock-set (Array Ref Bool) — C18
 	res   *resolver // how keys absent from heap are resolved (initial array, or a havoc layer)
 }
@@ -25,6 +26,8 @@ type resolver struct {
 	below *resolver
 	conds []Term
 	subs  []*resolver
+	sctr  Term // layer: the slice-store frontier right after the havoc (every id in the havocked heap is older)
+	ctr   Term // layer: the allocation frontier right after the havoc (every reference in the havocked heap is older)
 }
 
 var baseResolver = &resolver{kind: 0}
@@ -34,11 +37,19 @@ func (x *Exec) resolve(r *resolver, key string, srt Sort) Term {
 	case 0:
 		t := x.c.Named("H0_"+key, srt)
 		x.c.noteOrigin(t.S, key)
+		x.noteIdBound(t.S, x.c.Named("sctr0", SBV(64)))
+		x.noteRefBound(t.S, x.c.Named("ctr0", SRef))
 		return t
 	case 1:
 		if r.eff.matches(key) {
 			t := x.c.Named("Hh_"+r.tag+"_"+key, srt)
 			x.c.noteOrigin(t.S, key)
+			if r.sctr.S != "" {
+				x.noteIdBound(t.S, r.sctr)
+			}
+			if r.ctr.S != "" {
+				x.noteRefBound(t.S, r.ctr)
+			}
 			return t
 		}
 		return x.resolve(r.below, key, srt)
@@ -51,7 +62,7 @@ func (x *Exec) resolve(r *resolver, key string, srt Sort) Term {
 }
 
 func (s *State) clone() *State {
-	n := &State{heap: make(map[string]Term, len(s.heap)), ghost: make(map[string]Val, len(s.ghost)), ctr: s.ctr, held: s.held, res: s.res}
+	n := &State{heap: make(map[string]Term, len(s.heap)), ghost: make(map[string]Val, len(s.ghost)), ctr: s.ctr, sctr: s.sctr, held: s.held, res: s.res}
 	for k, v := range s.heap {
 		n.heap[k] = v
 	}
@@ -155,6 +166,11 @@ func (x *Exec) mergeStates(conds []Term, states []*State) *State {
 		acc = Ite(conds[i], states[i].ctr, acc)
 	}
 	out.ctr = x.c.Define("ctr", acc)
+	sacc := states[0].sctr
+	for i := 1; i < len(states); i++ {
+		sacc = Ite(conds[i], states[i].sctr, sacc)
+	}
+	out.sctr = x.c.Define("sctr", sacc)
 	acc = states[0].held
 	for i := 1; i < len(states); i++ {
 		acc = Ite(conds[i], states[i].held, acc)
@@ -247,5 +263,25 @@ func reachInside(t types.Type, out *Effects, seen map[types.Type]bool) {
 		}
 	default:
 		reachKeys(t, out, seen)
+	}
+}
+
+// noteIdBound: every slice id stored in the (initial or havocked) heap array sym
+// denotes a backing store that existed when the array came into being.
+func (x *Exec) noteIdBound(sym string, bound Term) {
+	if x.idBound == nil {
+		x.idBound = map[string]Term{}
+	}
+	if _, ok := x.idBound[sym]; !ok {
+		x.idBound[sym] = bound
+	}
+}
+
+func (x *Exec) noteRefBound(sym string, bound Term) {
+	if x.refBound == nil {
+		x.refBound = map[string]Term{}
+	}
+	if _, ok := x.refBound[sym]; !ok {
+		x.refBound[sym] = bound
 	}
 }
